@@ -220,23 +220,13 @@ Theorem C13_lb_preserves_locality : forall c lb L,
 Proof. exact build_cla_lb_members_at. Qed.
 Print Assumptions C13_lb_preserves_locality.
 
-(* weights after load balancing: REFUTED at or above 2^32 (applyFailoverPriorityPerLocality re-sums the
-   members of each priority group with a wrapping uint32 +=, finding failover-priority-weight-wraps) ... *)
-Theorem C13_lb_weights_refuted :
-  exists c lb g, In g (build_cla_lb c lb) /\ pg_members g <> [] /\
-    Forall (fun w => (w <= U32MAX)%N) (pg_weights g) /\
-    pg_weight g <> Some (N.min (plain_sum (pg_weights g)) U32MAX) /\
-    map (fun g : lgroup => snd (fst g)) (build_cla c) = [Some U32MAX].
-Proof. exact lb_weights_refuted. Qed.
-Print Assumptions C13_lb_weights_refuted.
-
-(* ... partial: every group with members whose weights sum to less than 2^32 carries exactly that sum,
-   for every setting (no split, failover only, failoverPriority split) *)
-Theorem C13_lb_weights_partial : forall c lb g,
-  In g (build_cla_lb c lb) -> pg_members g <> [] -> (plain_sum (pg_weights g) < U32MOD)%N ->
-  pg_weight g = Some (plain_sum (pg_weights g)).
-Proof. exact lb_weights_exact. Qed.
-Print Assumptions C13_lb_weights_partial.
+(* weights after load balancing: every group with members carries min(sum of member weights, 2^32-1),
+   for every setting (none, failover only, failoverPriority split) - the same rule as C13_weights *)
+Theorem C13_lb_weights : forall c lb g,
+  In g (build_cla_lb c lb) -> pg_members g <> [] -> Forall (fun w => (w <= U32MAX)%N) (pg_weights g) ->
+  pg_weight g = Some (N.min (plain_sum (pg_weights g)) U32MAX).
+Proof. exact lb_weights. Qed.
+Print Assumptions C13_lb_weights.
 
 (* non-vacuity *)
 Example C13_spec_nonvacuous :
@@ -248,6 +238,10 @@ Example C13_weights_at_the_boundary :
   map (fun g : lgroup => snd (fst g)) (build_cla (k12_in [])) = [Some U32MAX] /\
   map (fun g : lgroup => snd (fst g)) (build_cla (k12_in [k12_gw])) = [Some U32MAX].
 Proof. exact weights_example. Qed.
+Example C13_lb_weights_at_the_boundary :
+  map pg_weight (build_cla_lb fpw_in fpw_lb) = [Some U32MAX] /\
+  map (fun g : lgroup => snd (fst g)) (build_cla fpw_in) = [Some U32MAX].
+Proof. exact lb_weights_example. Qed.
 Example C13_membership_nonvacuous :
   exists m, In m (flat_map (fun g : lgroup => snd g) (build_cla (k12_in []))) /\ m_addr m = 1%N.
 Proof. eexists. split; [vm_compute; left; reflexivity | reflexivity]. Qed.
